@@ -126,13 +126,23 @@ def grow_in_place(m, depth=2):
 def remeasure(chk, inp, m):
     """len / dump are functions of the CURRENT value: measure, change the value in place, measure again"""
     try:
+        b0 = bytes(m)
+        before = len(b0)
+    except Exception:
+        before = None
+    try:
         if not grow_in_place(m):
             return
     except Exception as e:
         chk.count("grow_skipped_" + type(e).__name__)
         return
     chk.count("remeasured_after_in_place_growth")
-    oracle(chk, dict(inp, then="lists appended to in place after the first len()/dump()"), observe(m))
+    o2 = observe(m)
+    oracle(chk, dict(inp, then="lists appended to in place after the first len()/dump()"), o2)
+    # len and bytes agreeing with each other is not enough when both are remembered: the encoding must have grown
+    if before is not None and isinstance(o2["bytes"], bytes) and len(o2["bytes"]) <= before:
+        chk.fail("bytes-did-not-grow-after-in-place-growth", dict(inp, then="lists appended to in place after the first len()/dump()"),
+                 "%d bytes before, %d after" % (before, len(o2["bytes"])))
 
 
 def inplace_stage(chk, drv, b):
